@@ -2,8 +2,10 @@ package simfs
 
 import (
 	"fmt"
+	"os"
 	"sort"
 	"strings"
+	"syscall"
 
 	"github.com/cossacklabs/acra/keystore/v2/keystore/filesystem/backend/api"
 
@@ -16,8 +18,8 @@ import (
 // process) share one Store.
 type Store struct {
 	Data    map[string][]byte
-	writer  int          // handle id holding the exclusive lock, 0 = none
-	readers map[int]int  // handle id -> shared lock count
+	writer  int         // handle id holding the exclusive lock, 0 = none
+	readers map[int]int // handle id -> shared lock count
 	Writes  [][]byte
 	Record  bool
 	Touched map[string]struct{}
@@ -86,7 +88,8 @@ func (b *SimBackend) gate(site, detail string) (error, bool) {
 	d := b.W.Seam(b.Proc, site, detail)
 	switch d.Kind {
 	case kernel.FErr, kernel.FErrPartial:
-		return fmt.Errorf("%s: injected I/O error", site), false
+		// what the directory back end returns for a failed os call: the os error as it is
+		return &os.PathError{Op: strings.TrimPrefix(site, "be."), Path: detail, Err: syscall.EIO}, false
 	case kernel.FCrashBefore, kernel.FTorn:
 		b.W.Crash(b.Proc, site)
 	case kernel.FCrashAfter:
@@ -122,7 +125,7 @@ func (b *SimBackend) Put(path string, data []byte) error {
 	part := int(int64(len(data)) * (d.Arg % 1000) / 1000)
 	switch d.Kind {
 	case kernel.FErr:
-		return fmt.Errorf("be.Put: injected I/O error")
+		return &os.PathError{Op: "write", Path: path, Err: syscall.EIO}
 	case kernel.FErrPartial:
 		if !exists {
 			b.S.Data[path] = append([]byte(nil), data[:part]...)
